@@ -31,7 +31,7 @@ def run(ctx):
             ctx.fail(f"shipped recipe {case.desc} rejected a supported-op graph: {res['exc']} at {res['stage']} {res.get('msg', '')}", case.replay(),
                      f"shipped-reject:{res['exc']}@{res['stage']}")
         ctx.tag("recipe_" + str(case.desc))
-    fp.explore(ctx, drv, 260 if ctx.tier == "quick" else 5000, per_case, gen=gen, graph_corr=False, pipe_corr=True)
+    fp.explore(ctx, drv, 700 if ctx.tier == "quick" else 5000, per_case, gen=gen, graph_corr=False, pipe_corr=True)
     drv.close()
     return common.finish(ctx)
 
